@@ -58,6 +58,8 @@ def check_lt(ir, left, w, timeout_s=60):
     if lt.k == "i":
         s.holds(f"lt(c={left},w={w}): output boolean", z3.Or(lt.as_int() == 0, lt.as_int() == 1))
     s.holds(f"lt(c={left},w={w}): output = (c < x) for every witness", ltb == (left < x), dict(x=x))
+    cs = completeness(sx, s.label, f"lt(c={left},w={w}): every x < 2^w has a witness", x < (1 << w) if w < 64 else z3.BoolVal(True), timeout_s=timeout_s)
+    s.results += cs.results
     return sx, s
 
 
@@ -67,6 +69,8 @@ def check_enf(ir, bound, w, timeout_s=60):
     s = Session(f"enf b={bound} w={w}", sx.asserts, timeout_s=timeout_s, verbose=False)
     s.sat(f"enforce_lt(b={bound},w={w}): vacuity, satisfiable")
     s.holds(f"enforce_lt(b={bound},w={w}): satisfiable => x < bound", x < bound, dict(x=x))
+    cs = completeness(sx, s.label, f"enforce_lt(b={bound},w={w}): every x < bound has a witness", x < bound, timeout_s=timeout_s)
+    s.results += cs.results
     return sx, s
 
 
@@ -104,6 +108,8 @@ def check_sort(ir, n, timeout_s=300):
     perms = list(itertools.permutations(range(n)))
     s.holds(f"sort(n={n}): output is a permutation of the input ({len(perms)} cases)",
             z3.Or([z3.And([eq4(outs[k], ins[pi[k]]) for k in range(n)]) for pi in perms]))
+    cs = completeness(sx, s.label, f"sort(n={n}): every list of canonical digests has a witness", z3.BoolVal(True), timeout_s=timeout_s)
+    s.results += cs.results
     return sx, s
 
 
